@@ -68,7 +68,7 @@ func (u *unitCtx) function(n ast.Node, fn *types.Func) *fnInfo {
 		u.fail(fd, "variadic function %s", fn.Name())
 	}
 	c := &fnCtx{u: u, info: u.p.info, names: map[types.Object]string{}, used: map[string]bool{},
-		ptrs: map[types.Object]bool{}, mutSet: map[types.Object]bool{}}
+		ptrs: map[types.Object]bool{}, mutSet: map[types.Object]bool{}, scope: fd.Body}
 
 	// parameters (receiver first)
 	var params []*types.Var
